@@ -342,6 +342,22 @@ func (m *MTProto) readMsg(conn transport.Transport) error {
 
 func (m *MTProto) processResponse(msg messages.Common) error {
 	verifYield("dispatch", int64(msg.GetMsgID()))
+	err := m.handleResponse(msg)
+
+	// content-related message must be acknowledged whether or not we could handle it: msg_id and seq_no are
+	// known from the envelope, and server repeats message again and again until it gets the ack
+	if (msg.GetSeqNo() & 1) != 0 {
+		_, ackErr := m.MakeRequest(&objects.MsgsAck{MsgIDs: []int64{int64(msg.GetMsgID())}})
+		if ackErr != nil && err == nil {
+			err = errors.Wrap(ackErr, "sending ack")
+		}
+	}
+
+	return err
+}
+
+// handleResponse decodes the message and does what its body requires; acknowledging is up to processResponse
+func (m *MTProto) handleResponse(msg messages.Common) error {
 	var data tl.Object
 	var err error
 	if et, ok := m.expectedTypes.Get(reqMsgIDOf(msg)); ok && len(et) > 0 {
@@ -356,11 +372,17 @@ func (m *MTProto) processResponse(msg messages.Common) error {
 messageTypeSwitching:
 	switch message := data.(type) {
 	case *objects.MessageContainer:
+		// messages of a container have nothing to do with each other: one which can't be processed doesn't stop
+		// the others (e.g. repeated result for an already answered request, followed by result somebody waits for)
+		var firstErr error
 		for _, v := range *message {
 			err := m.processResponse(v)
-			if err != nil {
-				return errors.Wrap(err, "processing item in container")
+			if err != nil && firstErr == nil {
+				firstErr = errors.Wrap(err, "processing item in container")
 			}
+		}
+		if firstErr != nil {
+			return firstErr
 		}
 
 	case *objects.BadServerSalt:
@@ -423,13 +445,6 @@ messageTypeSwitching:
 		}
 		if !processed {
 			m.warnError(errors.New("got nonsystem message from server: " + reflect.TypeOf(message).String()))
-		}
-	}
-
-	if (msg.GetSeqNo() & 1) != 0 {
-		_, err := m.MakeRequest(&objects.MsgsAck{MsgIDs: []int64{int64(msg.GetMsgID())}})
-		if err != nil {
-			return errors.Wrap(err, "sending ack")
 		}
 	}
 
